@@ -67,6 +67,12 @@ static double dir_f8(const Rhumb& R, const RhumbLine& L, double s12) {   // F8 c
   double x = L._phi1.radians(), y = q2.radians();
   return (x != y && !(x * y < 0)) ? 2.5e-15 / (std::fabs(x) + std::fabs(y)) : 0;
 }
+static bool inv_f24(const Rhumb& R, double lat1, double lat2) {   // the tangents GenInverse / MeanSinXi hand to DParametric (exact solver)
+  if (!R._exact) return false;
+  AuxAngle q1(AuxAngle::degrees(lat1)), q2(AuxAngle::degrees(lat2)), k1(R._aux.Convert(AuxLatitude::PHI, AuxLatitude::CHI, q1, true)), k2(R._aux.Convert(AuxLatitude::PHI, AuxLatitude::CHI, q2, true));
+  AuxAngle px(R._aux.Convert(AuxLatitude::CHI, AuxLatitude::PHI, k1, true)), py(R._aux.Convert(AuxLatitude::CHI, AuxLatitude::PHI, k2, true));
+  return f24class(q1.tan(), q2.tan()) || f24class(px.tan(), py.tan());
+}
 static bool finite3(double a, double b, double c) { return std::isfinite(a) && std::isfinite(b) && std::isfinite(c); }
 
 // exact longitude difference reduced to [-180, 180], sign of +-180 from the sign of lon2 - lon1 reduced (oracle side; ties reported separately)
@@ -118,6 +124,23 @@ static Reg r_dd("dd", [](const Args& a) {
   if (!(std::fabs((double)((LD)v - ref)) <= tol)) bad("dd-kernel", "helper " + a[0] + " = " + num(v) + " but the divided difference is " + num(ref));
 });
 
+// DClenshaw: divided difference (Delta = zeta2 - zeta1) or plain difference (Delta = 1) of Clenshaw sums, random coefficient lists
+static Reg r_dcl("dcl", [](const Args& a) {
+  bool sinp = a[0] == "1", plain = a[1] == "1"; double z1 = unhx(a[2]), z2 = unhx(a[3]); std::vector<double> c; for (size_t i = 4; i < a.size(); ++i) c.push_back(unhx(a[i]));
+  double s1 = std::sin(z1), c1 = std::cos(z1), s2 = std::sin(z2), c2 = std::cos(z2), D = plain ? 1.0 : z2 - z1;
+  double v = DAuxLatitude::DClenshaw(sinp, D, s1, c1, s2, c2, c.data(), int(c.size()));
+  std::string op = "dcl " + a[0] + " " + a[1] + " " + hx(D) + " " + hx(s1) + " " + hx(c1) + " " + hx(s2) + " " + hx(c2); for (double x : c) op += " " + hx(x);
+  current_op() = op; emit(hx(v));
+  // defining sums in long double from the rounded (sin, cos) pairs' angles
+  LD Z1 = atan2l((LD)s1, (LD)c1), Z2 = atan2l((LD)s2, (LD)c2), sum = 0, mag = 0;
+  for (size_t k = 0; k < c.size(); ++k) { LD m = 2 * k + 2; LD t = sinp ? 2 * cosl(m * (Z2 + Z1) / 2) * sinl(m * (Z2 - Z1) / 2) : -2 * sinl(m * (Z2 + Z1) / 2) * sinl(m * (Z2 - Z1) / 2); sum += c[k] * t; mag += fabsl(c[k]) * m; }
+  LD ref = plain ? sum : (D != 0 ? sum / (LD)D : NAN);
+  if (!plain && !(std::fabs(D) > 1e-3)) return;   // the angle difference handed over as Delta is a rounded double: the long double quotient is only a referee for well separated angles (the Lean model covers the rest)
+  // divided form: Delta and the (sin, cos) pairs are separately rounded, the angle difference they define differs from Delta by a few eps
+  double tol = 64 * EPS * (double)mag * (plain ? std::fmax(1.0, std::fabs(z2 - z1)) : 1) + (plain ? 0 : 8 * EPS / std::fabs(D) * std::fabs((double)ref)) + 1e-300;
+  if (!(std::fabs((double)((LD)v - ref)) <= tol)) bad("dd-clenshaw", "DClenshaw = " + num(v) + " but the defining sum gives " + num(ref) + " (tolerance " + num(tol) + ")");
+});
+
 // DParametric, DIsometric, DRectifying (exact formulas) and DConvert-based quotients (series) against cancellation-free differences
 static Reg r_dde("dde", [](const Args& a) {
   double ea = unhx(a[0]), ef = unhx(a[1]); int fn = std::stoi(a[2]); double lat1 = unhx(a[3]), lat2 = unhx(a[4]);
@@ -141,6 +164,8 @@ static Reg r_dde("dde", [](const Args& a) {
   // the divided differences are with respect to phi in radians as the code forms it: relative rounding of phi1, phi2 over dphi is shared by numerator and denominator in the callers
   double rel = 64 * EPS;   // a dozen roundings, elliptic integrals (RF, RD) documented to a few ulp
   double f8 = fn == 2 ? f8bound(true, ef, lat1, lat2) : 0;
+  if (std::isnan(v) && fn != 1 && f24class(p1.tan(), p2.tan()) && !(fn == 2 && p1.radians() == p2.radians())) {
+    bad("F24-DParametric-reciprocal-nan:dd-kernel", "NaN: tan(phi1) != tan(phi2) but their reciprocals are equal"); return; }
   LD s2_, c2_; rho::scd(lat2, s2_, c2_);
   // what the rhumb solvers need of DRectifying: s12 = R_mu * DRectifying * hypot(lam12 / DIsometric, dphi), 1/DIsometric ~ cos(phi): the length tolerance
   // over a course of up to half a turn of longitude (near a pole lengths shrink with cos(phi) and so does the required relative accuracy)
@@ -236,6 +261,8 @@ static Reg r_inv("rinv", [](const Args& a) {
   // series and exact agree for |f| <= 0.01 (both are within the documented accuracy there)
   if (std::fabs(ef) <= 0.01 && !pole) {
     InvOut p = inverse(rh(ea, ef, !exact), lat1, lon1, lat2, lon2);
+    if (exact ? false : (!finite3(p.s12, p.azi12, p.S12) && inv_f24(rh(ea, ef, true), lat1, lat2))) {
+      bad("F24-DParametric-reciprocal-nan:rhumb-series-exact", "the exact solver returns NaN: tan(phi1) != tan(phi2) but their reciprocals are equal"); return; }
     double f8o = f8bound(true, ef, lat1, lat2); double tl1 = tl; tl = tl1 + trunc_rel(ef, true) * (double)s12r;
     judge("rhumb-series-exact", std::fabs(p.s12 - o.s12), 2 * tl, f8o, (double)s12r, "s12 series/exact " + num(o.s12) + " / " + num(p.s12) + ";");
     judge("rhumb-series-exact", std::fabs(Math::AngDiff(p.azi12, o.azi12)) * M_PI / 180 * (double)s12r, 2 * tl + 8 * ulp(180.0) * M_PI / 180 * (double)s12r, f8o, (double)s12r, "azi12 series/exact " + num(o.azi12) + " / " + num(p.azi12) + ";");
@@ -328,8 +355,17 @@ static Reg r_dir("rdir", [](const Args& a) {
   // Inverse o Direct: the inverse of (point 1, point 2) is a course that leads back to point 2 and is not longer
   if (fabsl(lam12) < 3.1L && c2 > 1e-6L) {
     InvOut o = inverse(R, lat1, lon1, lat2, lon2);
+    f8 = std::fmax(f8, f8bound(exact, ef, lat1, lat2));    // the inverse solver compares lat1 with the (rounded) lat2 it is given
+    if (exact && (std::isnan(o.s12) || std::isnan(o.S12))) {
+      AuxAngle q1(AuxAngle::degrees(lat1)), q2(AuxAngle::degrees(lat2)), k1(R._aux.Convert(R._aux.PHI, R._aux.CHI, q1, true)), k2(R._aux.Convert(R._aux.PHI, R._aux.CHI, q2, true));
+      AuxAngle px(R._aux.Convert(R._aux.CHI, R._aux.PHI, k1, true)), py(R._aux.Convert(R._aux.CHI, R._aux.PHI, k2, true));
+      if (f24class(q1.tan(), q2.tan()) || f24class(px.tan(), py.tan())) { bad("F24-DParametric-reciprocal-nan:rhumb-inverse-direct", "Inverse(Direct) is NaN: tan(phi1) != tan(phi2) but their reciprocals are equal"); return; }
+    }
     double dd = std::fabs(o.s12 - std::fabs(s12));
-    judge("rhumb-inverse-direct", dd, 2 * tp, f8, std::fabs(s12), "Inverse(Direct) s12 = " + num(o.s12) + " for a course of length " + num(s12) + ";");
+    // the inverse is handed the *rounded* lat2, lon2: s12 = R dmu/dpsi hypot(lam12, psi12) moves by s12 (lam12 dlam + psi12 dpsi)/(lam12^2 + psi12^2)
+    double dlamr0 = 4 * ulp(std::fabs(lon1) + std::fabs((double)(lam12 / rho::DEG))) * M_PI / 180, dpsir0 = 4 * ulp(90.0) * M_PI / 180 / (double)c2;
+    double conds = std::fabs(s12) * (double)((fabsl(lam12) * dlamr0 + fabsl(dps) * dpsir0) / (lam12 * lam12 + dps * dps + 1e-300L));
+    judge("rhumb-inverse-direct", dd, 2 * tp + conds, f8, std::fabs(s12), "Inverse(Direct) s12 = " + num(o.s12) + " for a course of length " + num(s12) + ";");
     double aziback = s12 >= 0 ? azi : azi + 180;
     // the inverse is handed the *rounded* lat2, lon2: azi = atan2(lam12, psi12) moves by (psi12 dlam - lam12 dpsi)/(lam12^2 + psi12^2)
     double dlamr = 4 * ulp(std::fabs(lon1) + std::fabs((double)(lam12 / rho::DEG))) * M_PI / 180, dpsir = 4 * ulp(90.0) * M_PI / 180 / (double)c2;
@@ -407,6 +443,10 @@ void gv::generate(const std::string& tier, uint64_t seed) {
       if (fn == 6) { x = std::atan(x); y = std::atan(y); }
       run("dd", {std::to_string(fn), H(x), H(y)}); stratum("dd-" + std::to_string(fn));
     }
+    { int K = r.irange(0, 8); std::vector<std::string> av = {r.coin() ? "1" : "0", r.irange(0, 3) ? "0" : "1"}; double z1 = r.range(-1.6, 1.6), z2;
+      switch (r.irange(0, 3)) { case 0: z2 = z1; break; case 1: z2 = z1 + r.range(-1, 1) * pw(r, -12, 0); break; case 2: z2 = -z1; break; default: z2 = r.range(-1.6, 1.6); }
+      av.push_back(H(z1)); av.push_back(H(z2)); for (int k = 0; k < K; ++k) av.push_back(H(r.range(-1, 1) * std::pow(e.f / (2 - e.f) + 0.3 * r.coin(), k + 1)));
+      run("dcl", av); stratum("dcl"); }
     { int fn = r.irange(0, 2); double lat1 = lat_gen(r.irange(0, 5)), lat2; int k = r.irange(0, 4);
       switch (k) { case 0: lat2 = lat1; break; case 1: lat2 = lat1 + r.range(-1, 1) * pw(r, -13, 0); break; case 2: lat2 = r.coin() ? nextup(lat1) : nextdn(lat1); break; case 3: lat2 = -lat1 * r.range(0.5, 1.5); break; default: lat2 = lat_gen(r.irange(0, 5)); }
       if (std::fabs(lat2) > 90) lat2 = lat1;
